@@ -156,7 +156,8 @@ def strat_blocks(draw, tier):
     m = draw(st.one_of(st.integers(1, n - 1), st.integers(1, n - 1), st.integers(0, n + 3)))
     return {"band": b, "n": n, "span": m, "sign": draw(st.sampled_from([1, 1, -1])),
             "seed": draw(st.integers(0, 2**31 - 1)), "dmsteps": draw(st.integers(2, 6)),
-            "pulse_t": draw(st.integers(0, 1000))}
+            "pulse_t": draw(st.integers(0, 1000)),
+            "layout": draw(st.sampled_from(["C", "F", "F", "strided_view", "reversed_view"]))}
 
 
 def shifted(x, d, t0, length, wrap):
@@ -180,7 +181,8 @@ def check_blocks(case, ctx):
     rng = np.random.default_rng(case["seed"])
     x = rng.integers(0, 256, size=(nch, n)).astype(np.float32)
     hdr = mk_header(b, n)
-    blk = FilterbankBlock(x.copy(), hdr)
+    # read_block hands out transposed (F-ordered) views: the block methods must not depend on the memory layout
+    blk = FilterbankBlock(vs.relayout(x.copy(), case.get("layout", "C")), hdr)
     dm = dm_for_span(b, case["span"], case["sign"])
     ref = b["ref"]
     d = np.asarray(hdr.get_dmdelays(dm, ref_freq=ref)).astype(np.int64).reshape(-1)
